@@ -29,6 +29,7 @@ _keep_alive: List[ast.AST] = []
 
 _KEEP: list = []
 _ALIAS_TERMS: set = set()
+_NAME_NODES: Dict[tuple, ast.Name] = {}
 
 
 def free_names(expr: ast.AST) -> frozenset:
@@ -375,11 +376,30 @@ class FactOps:
                             plan.append((pname, 'const', (e.value,)))
                         elif isinstance(e, ast.Name):
                             plan.append((pname, 'name', ('v', i.iid, e.id)))
+                        elif _is_test_like(e) and is_pure(e):
+                            # a caller flag that stands for a test (`flag = <pure test>`): known when the test's outcome is
+                            plan.append((pname, 'expr', (i.iid, e)))
+                            _KEEP.append(e)
                     elif b[0] == 'default' and isinstance(b[1], ast.Constant):
                         plan.append((pname, 'const', (b[1].value,)))
                 _entry_plans[ev.inst.iid] = plan
             for pname, how, what in plan:
+                if how == 'expr':
+                    _INST.setdefault(what[0], ev.inst.parent if ev.inst.parent is not None and ev.inst.parent.iid == what[0] else _INST.get(what[0]))
+                    v = self.eval3(what[1], what[0], facts)
+                    if v is not None:
+                        facts = self.put(facts, ('v', iid, pname), (v,))
+                    continue
                 c = what if how == 'const' else self.get(facts, what)
+                if c is None and how == 'name':
+                    # a caller flag that stands for a test (`flag = <pure test>`) whose outcome is known by now
+                    key = ('name', what[1], what[2])
+                    nm = _NAME_NODES.get(key)
+                    if nm is None:
+                        nm = _NAME_NODES[key] = ast.Name(id=what[2], ctx=ast.Load())
+                    v = self.eval3(nm, what[1], facts)
+                    if v is not None:
+                        c = (v,)
                 if c is not None:
                     facts = self.put(facts, ('v', iid, pname), c)
             return facts
